@@ -109,6 +109,9 @@ func (s *Session) Exec2(t []string, num func(int) uint64) (obs, viol string, han
 					names = append(names, n)
 				}
 				sort.Strings(names)
+				if viol == "" && t[1] != "-" {
+					viol = s.checkDiffCost(int(num(1)), int(num(2)), names)
+				}
 				return strings.TrimSpace(fmt.Sprintf("%d %s", len(names), strings.Join(names, " "))), viol, true
 			}
 		case "diffc":
